@@ -18,6 +18,7 @@ package main
 import (
 	"fmt"
 	"math/rand/v2"
+	"net"
 	"runtime"
 	"sort"
 	"strings"
@@ -237,6 +238,10 @@ func mkRec(flow, node int, end uint32, delta uint64) agg.Rec {
 		rec.Total[i] = uint64(end) * 3
 	}
 	rec.Delta[agg.Pkt] = delta
+	if nb == 'S' {
+		// the source node knows the service address: a correlated field the destination node's record lacks
+		rec.IP = map[string]net.IP{"destinationClusterIPv4": net.IP{10, 96, 0, byte(flow + 1)}, "destinationClusterIPv6": net.IP{0xfd, 0, 0, 0, 0, 0, 0, 0, 0, 0, 0, 0, 0, 0, 0x96, byte(flow + 1)}}
+	}
 	return rec
 }
 
@@ -389,6 +394,13 @@ func linHistory(c *hx.Ctx, k int, r *rand.Rand) {
 		c.Add("lin_histories_with_a_lock_holder", 1)
 	}
 	var wg sync.WaitGroup
+	type heldRes struct {
+		m map[string]interface{}
+		s string
+	}
+	var heldMu sync.Mutex
+	var held []heldRes
+	var changed [][2]string
 	startGate := make(chan struct{})
 	jit := make([]uint64, len(plans))
 	for i := range jit {
@@ -400,12 +412,22 @@ func linHistory(c *hx.Ctx, k int, r *rand.Rand) {
 			defer wg.Done()
 			jr := rand.New(rand.NewPCG(seed, 1))
 			ends := map[[2]int]uint32{}
+			var lastRes map[string]interface{}
+			var lastStr string
 			<-startGate
 			for _, in := range p.ops {
 				if jr.IntN(3) == 0 {
 					runtime.Gosched()
 				}
 				in := in
+				if lastRes != nil {
+					// a query result is a value: it is read again while the other goroutines go on
+					if now := fmt.Sprint(lastRes); now != lastStr {
+						heldMu.Lock()
+						changed = append(changed, [2]string{lastStr, now})
+						heldMu.Unlock()
+					}
+				}
 				switch in.Op {
 				case "ingest":
 					kk := [2]int{in.Flow, in.Node}
@@ -436,6 +458,10 @@ func linHistory(c *hx.Ctx, k int, r *rand.Rand) {
 						if len(rs) == 0 {
 							return output{}
 						}
+						lastRes, lastStr = rs[0], fmt.Sprint(rs[0])
+						heldMu.Lock()
+						held = append(held, heldRes{lastRes, lastStr})
+						heldMu.Unlock()
 						return output{Exists: true, Sum: sums(rs[0])}
 					})
 				case "num":
@@ -450,6 +476,15 @@ func linHistory(c *hx.Ctx, k int, r *rand.Rand) {
 	}
 	close(startGate)
 	wg.Wait()
+	for _, h := range held {
+		if now := fmt.Sprint(h.m); now != h.s {
+			changed = append(changed, [2]string{h.s, now})
+		}
+	}
+	c.Add("query_results_retained_and_read_again", int64(len(held)))
+	if len(changed) > 0 {
+		c.Violation(k, "query-result-changed-later", fmt.Sprintf("%d GetRecords results changed after they had been returned (a result is a value: later operations must not reach into it); first: returned %.300s ... later read as %.300s", len(changed), changed[0][0], changed[0][1]), nil)
+	}
 	// final quiescent reads join the history, so the final state is checked too
 	for f := 0; f < nflows; f++ {
 		fk := agg.Keys[f].FlowKey()
